@@ -26,7 +26,7 @@ for pid in ids:
         na.append({"property_id": pid, "reason": m.get("na_reason", "no solver-based check has been built for this property in this revision (planned obligations: DESIGN.md §4 %s)" % pid)})
 man = {
     "version": 1,
-    "setup_cmd": "cd /verif/engine && GOFLAGS=-mod=mod GOPROXY=off GOSUMDB=off GOTOOLCHAIN=local go build -o ../bin/gosym ./cmd/gosym && go build -o ../bin/cgoxf ./cmd/cgoxf",
+    "setup_cmd": "cd /verif/engine && export GOFLAGS=-mod=mod GOPROXY=off GOSUMDB=off GOTOOLCHAIN=local && go build -o ../bin/gosym ./cmd/gosym && go build -o ../bin/cgoxf ./cmd/cgoxf",
     "hooks": {"guard": "verif_harness", "enable": "no source hooks: harnesses, support package zzvf and cgo translations are injected with go/packages Overlay and `go test -overlay`; /repo is never written",
               "baseline_off_cmd": json.load(open("/root/.vp/BASELINE.json"))["cmd"] if os.path.exists("/root/.vp/BASELINE.json") else meta.get("_baseline", ""),
               "source_commits": meta.get("_source_commits", []), "add_only": True},
